@@ -100,7 +100,8 @@ class CFModel(CustomModel):
         Returns:
             A new CFModel.
         """
-        extra_params = {} if extra_params is None else extra_params
+        # The caller's dictionary is read, never consumed: the same dictionary can be passed again
+        extra_params = {} if extra_params is None else dict(extra_params)
         # default parameters
         params = {}
         for key, parameter in self.Parameters.items():
